@@ -536,6 +536,7 @@ func main() {
 	} else {
 		decline("token_enum", "no constants of type parser.token")
 	}
+	panicSites(l, &sb)
 	policyFuncs(l, &sb)
 	columnTables(l, &sb)
 	if err := os.WriteFile(os.Args[2], []byte(sb.String()), 0o644); err != nil {
@@ -545,6 +546,60 @@ func main() {
 	for _, d := range declined {
 		fmt.Println("DECLINED " + d)
 	}
+}
+
+// panicSites lists every call of the builtin panic in the non-test, non-harness files of the loaded packages as
+// "package.Receiver.Function" (sorted, one entry per call): the places where the proxy terminates itself on purpose.
+func panicSites(l *loaded, sb *strings.Builder) {
+	var sites []string
+	for _, name := range []string{"codecs", "parser", "proxy", "proxycore"} {
+		p := l.pkgs[name]
+		if p == nil {
+			continue
+		}
+		for _, f := range p.Syntax {
+			file := p.Fset.Position(f.Pos()).Filename
+			base := file[strings.LastIndex(file, "/")+1:]
+			if strings.HasSuffix(base, "_test.go") || strings.HasPrefix(base, "verif_") || base == "mockcluster.go" {
+				continue
+			}
+			for _, d := range f.Decls {
+				fd, ok := d.(*ast.FuncDecl)
+				if !ok || fd.Body == nil {
+					continue
+				}
+				recv := ""
+				if fd.Recv != nil && len(fd.Recv.List) == 1 {
+					t := fd.Recv.List[0].Type
+					if st, ok := t.(*ast.StarExpr); ok {
+						t = st.X
+					}
+					if id, ok := t.(*ast.Ident); ok {
+						recv = id.Name + "."
+					}
+				}
+				ast.Inspect(fd.Body, func(n ast.Node) bool {
+					if ce, ok := n.(*ast.CallExpr); ok {
+						if id, ok := ce.Fun.(*ast.Ident); ok && id.Name == "panic" {
+							if _, isBuiltin := p.TypesInfo.Uses[id].(*types.Builtin); isBuiltin {
+								sites = append(sites, name+"."+recv+fd.Name.Name)
+							}
+						}
+					}
+					return true
+				})
+			}
+		}
+	}
+	sort.Strings(sites)
+	sb.WriteString("(* every call of the builtin panic in the production files of codecs, parser, proxy, proxycore *)\nDefinition explicit_panic_sites : list (list N) :=\n  [")
+	for i, s := range sites {
+		if i > 0 {
+			sb.WriteString(";\n   ")
+		}
+		fmt.Fprintf(sb, "%s (* %q *)", bytesLit(s), s)
+	}
+	sb.WriteString("]%N.\n\n")
 }
 
 func constInt64(c *types.Const) (int64, bool) {
